@@ -10,7 +10,7 @@ from fractions import Fraction
 import qenv  # noqa: F401
 import torch
 from exact import FMT, FMT_NAME, codes_of, limbs, to_fractions
-from optimum.quanto import absmax_scale, qtypes, quantize_activation, quantize_weight
+from optimum.quanto import QTensor, absmax_scale, qtypes, quantize_activation, quantize_weight
 from optimum.quanto.tensor.optimizers import AbsmaxOptimizer, MaxOptimizer
 from optimum.quanto.tensor.quantizers import AffineQuantizer, SymmetricQuantizer
 
@@ -516,7 +516,7 @@ def _zero_layer_case(fmt, wq, kind, aq, frozen, seed):
         if frozen:
             freeze(m)
         y = m(xin)
-    if hasattr(y, "dequantize"):
+    if isinstance(y, QTensor):
         y = y.dequantize()
     b = m[0].bias.detach()
     ref = b.reshape(1, -1).expand(3, 8) if kind == "linear" else b.reshape(1, -1, 1, 1).expand(y.shape)
@@ -544,7 +544,7 @@ def _calib_case(fmt, aq, batch, seed):
         with Calibration(streamline=False):
             m(cal)
         ys = [m(cal), m(torch.randn(2, 32).to(dtype))]
-    ys = [y.dequantize() if hasattr(y, "dequantize") else y for y in ys]
+    ys = [y.dequantize() if isinstance(y, QTensor) else y for y in ys]
     return {"finite": all(bool(torch.isfinite(y.to(torch.float32)).all()) for y in ys)}
 
 
